@@ -19,8 +19,9 @@ pool, connectBestChain, reorganizeChain, persisted maps, sequence log) by
   source (`self` / `download` / any peer); `LoadBlockByHash` (the STORED body) on reorganisation;
 * the transaction index keyed by `Transaction.Hash()` (`Params.key`: hash class of a transaction
   instance — the hash covers neither signature nor public key), the TxHeight window cache
-  (`txHashCache.Add/Del`), and the mempool's hash set as far as `PreExecBlock` consults it
-  (`EventCheckTxsExist`; removal on EventAddBlock, re-insertion on EventDelBlock).
+  (`txHashCache.Add/Del`), and the mempool as far as `PreExecBlock` consults it: the signed
+  transaction instances it holds, at most one per hash (`EventCheckTxsExist` + `EventTxListByHash`;
+  removal by hash on EventAddBlock, re-insertion of a disconnected block's transactions on EventDelBlock).
 
 Not modelled (assumptions of every theorem and of the tie): see C25, plus — blocks produced by the
 node itself (`pid = "self"`: errReturn=false drops failing transactions and re-hashes the block;
@@ -93,7 +94,7 @@ structure State where
   lastSeq : Int
   txIdx : Map Nat            -- Transaction.Hash() -> height (AddTxs / DelTxs)
   cache : List (Nat × Nat)   -- txHashCache: (txHeight, tx hash) pairs
-  pool : List Nat            -- mempool: transaction hashes
+  pool : List Nat            -- mempool: transaction INSTANCES (signed transactions), at most one per hash
 
 /-- what the model needs to know about transactions and execution. -/
 structure Params where
@@ -207,7 +208,15 @@ def connectBlock (P : Params) (s : State) (b : Blk) : State × Option Err :=
                      best := b :: s1.best,
                      txIdx := addTxs P s1.txIdx b,
                      cache := cacheAdd P s1 b,
-                     pool := s1.pool.filter (fun h => !(keys P b).contains h) }, none)
+                     pool := s1.pool.filter (fun p => !(keys P b).contains (P.key p)) }, none)
+
+/-- mempool `PushTx`: refused when a transaction of the same hash is already held. -/
+def poolPush (P : Params) (pool : List Nat) (t : Nat) : List Nat :=
+  if pool.any (fun p => P.key p == P.key t) then pool else pool ++ [t]
+
+/-- mempool `delBlock` (EventDelBlock): the transactions of the disconnected block are pushed
+back WITHOUT signature verification. -/
+def poolReadd (P : Params) (pool : List Nat) (txs : List Nat) : List Nat := txs.foldl (poolPush P) pool
 
 /-- `disconnectBlock(node, blockdetail)`; `b` is the block loaded from the store. -/
 def disconnectBlock (P : Params) (s : State) (b : Blk) : State × Option Err :=
@@ -223,7 +232,7 @@ def disconnectBlock (P : Params) (s : State) (b : Blk) : State × Option Err :=
                  best := rest,
                  txIdx := delTxs P s1.txIdx b,
                  cache := cacheDel P s1 b.height,
-                 pool := (keys P b).foldl (fun p h => if p.contains h then p else p ++ [h]) s1.pool }, none)
+                 pool := poolReadd P s1.pool b.txs }, none)
 
 def runSteps (f : State → Blk → State × Option Err) : State → List Blk → State × Option Err
   | s, [] => (s, none)
@@ -392,13 +401,13 @@ def init (fin margin hi lo : Nat) (recSeq : Bool) (g : Blk) : State :=
 /-- external events: a block handed to `ProcessBlock`, a transaction entering / leaving the mempool. -/
 inductive Ev
   | deliver (b : Blk) (src : Src)
-  | poolAdd (h : Nat)
-  | poolDel (h : Nat)
+  | poolAdd (t : Nat)   -- a transaction instance is admitted by the mempool
+  | poolDel (h : Nat)   -- the transaction of hash `h` leaves the mempool
 
 def step (P : Params) (s : State) : Ev → State
   | .deliver b src => (processBlock P s b src).1
-  | .poolAdd h => if s.pool.contains h then s else { s with pool := s.pool ++ [h] }
-  | .poolDel h => { s with pool := s.pool.filter (· != h) }
+  | .poolAdd t => { s with pool := poolPush P s.pool t }
+  | .poolDel h => { s with pool := s.pool.filter (fun p => P.key p != h) }
 
 def run (P : Params) (s : State) (evs : List Ev) : State := evs.foldl (step P) s
 
@@ -460,12 +469,20 @@ def hasTx (T : Table) (s : State) (t : Nat) : Bool :=
   | some h => s.cache.contains (h, (T t).hash)
   | none => (s.txIdx (T t).hash).isSome
 
+/-- the pool reports the hash (`EventCheckTxsExist`) AND the pooled transaction of that hash is
+this very signed transaction (`pooledTxs` + FullHash comparison). -/
+def poolVouches (T : Table) (s : State) (t : Nat) : Bool :=
+  match s.pool.find? (fun p => (T p).hash == (T t).hash) with
+  | some p => p == t
+  | none => false
+
 /-- `PreExecBlock(errReturn = true)` + `CheckBlock`, in the order of the code. -/
 def preExec (T : Table) (s : State) (b : Blk) : Option Err :=
-  -- 1. block signature, then the signatures of the transactions the mempool does NOT report by hash
+  -- 1. block signature, then the signatures of all transactions except those the mempool holds as
+  --    the SAME signed transaction (repo 28243c8: EventCheckTxsExist by hash, then EventTxListByHash and
+  --    comparison of FullHash — a transaction instance stands for one full hash)
   if !b.sigOk then some .sign else
-  -- (`ExistCount > 0` ⇒ the list is rebuilt from the flags; otherwise all of them: the same filter)
-  let unverified := b.txs.filter (fun t => !s.pool.contains (T t).hash)
+  let unverified := b.txs.filter (fun t => !poolVouches T s t)
   if !unverified.all (fun t => (T t).sigOk) then some .sign else
   -- 2. CheckTxDup: in-block duplicates, then chain lookup
   let kept := (delDup T b.txs).filter (fun t => !hasTx T s t)
@@ -483,6 +500,23 @@ not looked at on this path: the mempool verified them). -/
 def produce (T : Table) (s : State) (b : Blk) : List Nat :=
   ((delDup T b.txs).filter (fun t => !hasTx T s t)).filter
     (fun t => checkTx s.hi s.lo (T t) b.height b.time)
+
+/-- `PreExecBlock` BEFORE repo commit 28243c8: a transaction was exempt from signature verification
+as soon as the pool reported its HASH (which covers neither signature nor public key).  Kept for
+the regression witness `C28.chain_tx_signed_regression_old_preExec`. -/
+def preExecOld (T : Table) (s : State) (b : Blk) : Option Err :=
+  if !b.sigOk then some .sign else
+  let unverified := b.txs.filter (fun t => !s.pool.any (fun p => (T p).hash == (T t).hash))
+  if !unverified.all (fun t => (T t).sigOk) then some .sign else
+  let kept := (delDup T b.txs).filter (fun t => !hasTx T s t)
+  if kept.length ≠ b.txs.length then some .txDup else
+  if !b.txs.all (fun t => checkTx s.hi s.lo (T t) b.height b.time) then some .blockExec else
+  if !b.rootOk then some .checkTxHash else
+  if !b.stateOk then some .checkStateHash else
+  b.chkOk
+
+def ofTableOld (T : Table) : Params :=
+  { key := fun t => (T t).hash, txh := fun t => txhOf (T t), exec := preExecOld T }
 
 def ofTable (T : Table) : Params :=
   { key := fun t => (T t).hash, txh := fun t => txhOf (T t), exec := preExec T }
@@ -618,12 +652,13 @@ def handle (d : DState) (line : String) : DState × String :=
     match d.st, inst.toNat? with
     | some s, some i =>
       if d.txs.any (fun e => e.1 == i) then
-        ({ d with st := some (step (ofTable (table d.txs)) s (.poolAdd (table d.txs i).hash)), started := true }, "ok")
+        ({ d with st := some (step (ofTable (table d.txs)) s (.poolAdd i)), started := true }, "ok")
       else (d, "bad-op")
     | _, _ => (d, "bad-op")
   | ["pool?", tag] =>
     match d.st, tag.toNat? with
-    | some s, some t => ({ d with started := true }, if s.pool.contains t then "yes" else "no")
+    | some s, some t =>
+      ({ d with started := true }, if s.pool.any (fun p => (table d.txs p).hash == t) then "yes" else "no")
     | _, _ => (d, "bad-op")
   | ["chain"] =>
     match d.st with
